@@ -12,7 +12,8 @@ ID = "C17"
 WITNESS = ()
 RULE = (
     "planes given in each constructor form - point+normal, general form (a,b,c,d) (all integer coefficient "
-    "vectors in [-3,3]^3 \\ 0 with d in [-4,4] are enumerated: 342*9 = 3078, plus generated ones), three points, "
+    "vectors in [-3,3]^3 \\ 0 with d in [-4,4] are enumerated: 342*9 = 3078, plus generated ones; all 1330 normal "
+    "directions in [-5,5]^3 \\ 0 are enumerated in point-normal form), three points, "
     "point + two vectors - and lines given as (p,q), (p,q-p), (position vector, direction), over lattice poses "
     "with every zero pattern and sign of the normal/direction. For each: general_form / point_normal / "
     "parametric round trips must == the original and contain three exact non-collinear points of it; "
@@ -255,14 +256,15 @@ def enum_gf(shard, nshards):
 
 def enum_dirs(shard, nshards):
     i = 0
-    for d in itertools.product(range(-2, 3), repeat=3):
+    for d in itertools.product(range(-5, 6), repeat=3):
         if d == (0, 0, 0):
             continue
         i += 1
         if i % nshards == shard:
             dd = tuple(F(x) for x in d)
             yield ("PN", (F(1), F(-2), F(1, 2)), dd)
-            yield ("LINE", (F(1), F(-2), F(1, 2)), dd)
+            if max(abs(x) for x in d) <= 2:
+                yield ("LINE", (F(1), F(-2), F(1, 2)), dd)
 
 
 def strata(tier):
